@@ -411,6 +411,7 @@ type EncOpts struct {
 	Unknown     bool       // interleave unknown fields
 	LongKeys    bool       // encode some keys in one byte more than necessary
 	Sandwich    bool       // an unknown field before every field and one at the end, whatever R (which may be nil)
+	SplitRuns   bool       // every packable repeated field with two or more elements as: one unpacked element, a packed run, a second packed run
 	Split       *bool      // set when a singular message field was actually split over two occurrences
 }
 
@@ -577,6 +578,25 @@ func (s Schema) Encode(t string, m AM, o EncOpts) []byte {
 				for _, e := range af.L {
 					c := o.tag(nil, num, protowire.BytesType)
 					chunks = append(chunks, protowire.AppendBytes(c, s.Encode(fd.T, e.M[0], o)))
+				}
+				continue
+			}
+			if o.SplitRuns && packableKind(fd.K) && len(af.L) >= 2 {
+				// (a writer may split a repeated field over occurrences and mix the two forms: all of them extend the list)
+				c := o.tag(nil, num, wtOfKind(fd.K))
+				chunks = append(chunks, appendScalar(c, fd.K, af.L[0]))
+				rest := af.L[1:]
+				cut := (len(rest) + 1) / 2
+				for _, part := range [][]AV{rest[:cut], rest[cut:]} {
+					if len(part) == 0 {
+						continue
+					}
+					var body []byte
+					for _, e := range part {
+						body = appendScalar(body, fd.K, e)
+					}
+					c := o.tag(nil, num, protowire.BytesType)
+					chunks = append(chunks, protowire.AppendBytes(c, body))
 				}
 				continue
 			}
